@@ -77,7 +77,7 @@ class ParserData:
         # Extract the attention type.
         try:
             out = self._data[model_ec]["attn_types"][attn_type]
-        except KeyError:
+        except (KeyError, IndexError, TypeError):
             out = attn_type
 
         return out
@@ -98,13 +98,13 @@ class ParserData:
         # Extract chip type.
         try:
             chip_type = self._data[model_ec]["model_ec"]["type"]
-        except KeyError:
+        except (KeyError, IndexError, TypeError):
             chip_type = "unknown"
 
         # Extract chip description.
         try:
             chip_desc = self._data[model_ec]["model_ec"]["desc"]
-        except KeyError:
+        except (KeyError, IndexError, TypeError):
             chip_desc = model_ec.upper()
 
         return "node %d %s %d (%s)" % (node_pos, chip_type, chip_pos, chip_desc)
@@ -129,13 +129,13 @@ class ParserData:
         # Extract signature name.
         try:
             sig_name = self._data[model_ec]["signatures"][sig_id][0]
-        except KeyError:
+        except (KeyError, IndexError, TypeError):
             sig_name = "id:" + sig_id.upper()
 
         # Extract signature description.
         try:
             sig_desc = self._data[model_ec]["signatures"][sig_id][1][sig_bit]
-        except KeyError:
+        except (KeyError, IndexError, TypeError):
             sig_desc = ""
 
         return "%s(%d)[%s] %s" % (sig_name, sig_inst, sig_bit, sig_desc)
@@ -195,14 +195,14 @@ class ParserData:
         # Extract register name.
         try:
             reg_name = self._data[model_ec]["registers"][reg_id][0]
-        except KeyError:
+        except (KeyError, IndexError, TypeError):
             reg_name = "id:%s inst:%s" % (reg_id.upper(), reg_inst)
 
         # Extract register address.
         try:
             reg_addr = self._data[model_ec]["registers"][reg_id][1][reg_inst]
             reg_addr = int(reg_addr, base=16)
-        except KeyError:
+        except (KeyError, IndexError, TypeError):
             reg_addr = 0
 
         return reg_name, "0x%08X" % reg_addr
